@@ -4,6 +4,7 @@ import (
 	"bytes"
 	"go/ast"
 	"go/printer"
+	"sort"
 	"strings"
 )
 
@@ -59,6 +60,50 @@ func factsC17() {
 	in := "pkg/haproxy/instance.go"
 	addStrList("c17AcmeUpdateConds", c17IfConds(in, methodDecl(in, "instance", "AcmeUpdate")), "instance.go AcmeUpdate: if conditions")
 	addStrList("c17AcmeUpdateCalls", methodCalls(in, "instance", "AcmeUpdate"), "instance.go AcmeUpdate: selector calls in source order")
+	// the controller cycle around AcmeUpdate: what AcmeUpdate can see of the instance, the deferred Commit,
+	// failedSince / reloadOwed bookkeeping, when a reload is attempted
+	addStrList("c17AcmeUpdateFields", c17RecvFields(methodDecl(in, "instance", "AcmeUpdate"), "i"),
+		"instance.go AcmeUpdate: fields and methods of the instance it touches, sorted (no failedSince, reloadOwed, up: the enqueue decision does not depend on reload outcomes)")
+	hu := methodDecl(in, "instance", "HAProxyUpdate")
+	addStrList("c17HAProxyUpdateHead", c17Stmts(in, hu)[:2],
+		"instance.go HAProxyUpdate: first two statements (nil config returns; then `defer i.config.Commit()`: every later return commits)")
+	var owedConds []string
+	for _, c := range c17IfConds(in, hu) {
+		if strings.Contains(c, "reloadOwed") {
+			owedConds = append(owedConds, c)
+		}
+	}
+	addStrList("c17HAProxyUpdateOwedConds", owedConds, "instance.go HAProxyUpdate: conditions mentioning reloadOwed (an owed reload is retried)")
+	addStrList("c17UpdateSuccessfulBody", c17Stmts(in, methodDecl(in, "instance", "updateSuccessful")),
+		"instance.go updateSuccessful: statements (failedSince cleared on success, set on the first failure)")
+	rl := methodDecl(in, "instance", "Reload")
+	var rlMarks []string
+	ast.Inspect(rl.Body, func(n ast.Node) bool {
+		switch x := n.(type) {
+		case *ast.AssignStmt:
+			if t := c17Src(in, x); strings.HasPrefix(t, "i.reloadOwed") || strings.HasPrefix(t, "i.up ") {
+				rlMarks = append(rlMarks, t)
+			}
+		case *ast.CallExpr:
+			if calleeName(x.Fun) == "i.updateSuccessful" {
+				rlMarks = append(rlMarks, c17Src(in, x))
+			}
+		}
+		return true
+	})
+	addStrList("c17ReloadMarks", rlMarks, "instance.go Reload: assignments of reloadOwed / up and calls of updateSuccessful, source order (failure branch first)")
+	dy := "pkg/haproxy/dynupdate.go"
+	addStrList("c17DynUpdateFirst", c17Stmts(dy, methodDecl(dy, "dynUpdater", "update"))[:1],
+		"dynupdate.go update: first statement (without committed data — first update, full sync — a reload is needed)")
+	sv := "pkg/controller/services/services.go"
+	var order []string
+	for _, c := range methodCalls(sv, "Services", "ReconcileIngress") {
+		if strings.HasSuffix(c, ".Sync") || strings.HasPrefix(c, "s.instance.") || c == "s.svcleader.isLeader" {
+			order = append(order, c)
+		}
+	}
+	addStrList("c17ReconcileOrder", order,
+		"services.go ReconcileIngress: converter Sync, then (leader) AcmeUpdate, then HAProxyUpdate — AcmeUpdate sees the failedSince the previous reconciliation left")
 	ig := "pkg/converters/ingress/ingress.go"
 	var tlsConds []string
 	for _, c := range c17IfConds(ig, methodDecl(ig, "converter", "syncIngressHTTP")) {
@@ -87,5 +132,24 @@ func c17AssignsAll(rel string, fd *ast.FuncDecl) []string {
 		}
 		return true
 	})
+	return res
+}
+
+// c17RecvFields: sorted distinct `recv.X` selectors inside fd
+func c17RecvFields(fd *ast.FuncDecl, recv string) []string {
+	seen := map[string]bool{}
+	ast.Inspect(fd.Body, func(n ast.Node) bool {
+		if sel, ok := n.(*ast.SelectorExpr); ok {
+			if id, ok := sel.X.(*ast.Ident); ok && id.Name == recv {
+				seen[recv+"."+sel.Sel.Name] = true
+			}
+		}
+		return true
+	})
+	var res []string
+	for k := range seen {
+		res = append(res, k)
+	}
+	sort.Strings(res)
 	return res
 }
